@@ -13,6 +13,7 @@ macro_rules! props {
 }
 props! {
     "C01" => c01,
+    "C02" => c02,
     "C05" => c05,
     "C06" => c06,
     "C07" => c07,
@@ -41,6 +42,7 @@ pub fn replay(path: &str) -> i32 {
     let id = v["property"].as_str().unwrap_or("");
     match id {
         "C20" => c20::replay(&v["replay"]),
+        "C02" => c02::replay(&v["replay"]),
         _ => {
             println!("{}", serde_json::to_string_pretty(&v).unwrap());
             crate::elog!("no executable replay for {}; the file lists the literal inputs", id);
